@@ -302,6 +302,31 @@ theorem YeoJohnson.fwdW_le_of_le_one (lam w : ℝ) (hl : lam ≤ 1) (hw : w < ep
   rw [show -w + 1 = 1 + -w by ring]
   nlinarith
 
+
+/-- image side: for `y ≤ 0` (inside the image) the negative-branch inverse is `≤ 0`, so both tests pick the negative branch -/
+theorem YeoJohnson.bwdW_nonpos (lam y : ℝ) (hy : y ≤ 0)
+    (hneg : isclose2 lam = false → 0 < -(2 - lam) * y + 1) : YeoJohnson.bwdW lam y ≤ 0 := by
+  unfold YeoJohnson.bwdW
+  rw [if_neg (by linarith [eps_pos])]
+  cases h2 : isclose2 lam with
+  | true =>
+    simp only [if_true, transc_exp]
+    have : 1 ≤ Real.exp (-y) := Real.one_le_exp (by linarith)
+    linarith
+  | false =>
+    simp only [Bool.false_eq_true, if_false, transc_pow]
+    have hm := isclose2_false h2
+    have hq := hneg h2
+    have : 1 ≤ (-(2 - lam) * y + 1) ^ (1 / (2 - lam)) := by
+      rcases lt_or_gt_of_ne hm with h | h
+      · apply Real.one_le_rpow_of_pos_of_le_one_of_nonpos hq
+        · nlinarith
+        · rw [one_div]; exact (inv_lt_zero.mpr h).le
+      · apply Real.one_le_rpow
+        · nlinarith
+        · rw [one_div]; exact (inv_pos.mpr h).le
+    linarith
+
 /-! ### LogSinh -/
 
 theorem logsinh_back {w : ℝ} (hw : 0 < w) :
